@@ -38,6 +38,44 @@ Definition em_check (c : em_case) : bool :=
    (* one row per ticket of the merged event *)
    multiset_eqb (ec_tickets c) (em_burn_tickets_stored tickets))%bool.
 
+(* A field case: the events of ONE additive tag in a block, with their payload fields in the order of the generated
+   table (scalar x as [(0, x)], a map as its entries), and the data of the merged event the real mergeEvents returned
+   (index = identity of the datum). [emf_check]: the tag is MfAdd in the generated table with as many fields as every
+   payload has; the model merge has the same indices; per index and field the entries are the same multiset. *)
+Record emf_case := { fc_tag : string; fc_events : list emf_event; fc_merged : list emf_event }.
+
+Fixpoint emf_find (idx : Z) (es : list emf_event) : option emf_event :=
+  match es with
+  | [] => None
+  | e :: tl => if Z.eqb (fe_index e) idx then Some e else emf_find idx tl
+  end.
+
+Fixpoint fields_eqb (a b : emf_payload) : bool :=
+  match a, b with
+  | [], [] => true
+  | x :: ta, y :: tb => (multiset_eqb x y && fields_eqb ta tb)%bool
+  | _, _ => false
+  end.
+
+Definition emf_check (c : emf_case) : bool :=
+  match em_fn_of gen_merge_fns (fc_tag c) with
+  | Some (MfAdd fs) =>
+      let model := emf_merge (fc_events c) in
+      (forallb (fun e => Nat.eqb (List.length (fe_fields e)) (List.length fs)) (fc_events c) &&
+       Nat.eqb (List.length model) (List.length (fc_merged c)) &&
+       forallb (fun m => match emf_find (fe_index m) (fc_merged c) with
+                         | Some r => fields_eqb (fe_fields m) (fe_fields r)
+                         | None => false
+                         end) model)%bool
+  | _ => false
+  end.
+
+Inductive em_anycase := EcBlock (c : em_case) | EcFields (c : emf_case).
+Definition em_check_any (c : em_anycase) : bool :=
+  match c with EcBlock b => em_check b | EcFields f => emf_check f end.
+
+Definition fev (idx : Z) (fields : emf_payload) : emf_event := {| fe_index := idx; fe_fields := fields |}.
+
 (* tag names used by the engine's cases (short identifiers keep the case files small) *)
 Definition tgBurn : string := "TagAddBurnTicket".
 Definition tgABurn : string := "TagAuthorizerBurn".
